@@ -45,4 +45,5 @@ D20 886dbaf
 D22 5648d1e
 D26 6e387c3
 D27 7ac08f8
+R1 0b48008
 TAB
